@@ -31,7 +31,7 @@ MIN = {"quick": {"records_compared": 15000, "own_reader_records": 5000, "e2e_run
        "thorough": {"records_compared": 600000, "own_reader_records": 200000, "e2e_runs": 800}}
 
 FEATURES = ["plain", "plain", "serial-big", "resseq-big", "resseq-4col", "coord-big", "icode", "digit-chain",
-            "name4", "resn4", "hetatm", "blank-chain", "neg-coords"]
+            "name4", "resn4", "hetatm", "blank-chain", "neg-coords", "punct-names"]
 
 
 def cases(tier, seed):
@@ -45,7 +45,7 @@ def cases(tier, seed):
             # output naming schemes rename per atom (CHARMM: DISU / TER residue names inside one residue)
             flags.append("--ffout=" + rng.choice(["CHARMM", "CHARMM", "AMBER", "PARSE", "TYL06", "PEOEPB", "SWANSON"]))
         out.append({"kind": "e2e", "w": "synth", "seed": seed * 4001 + i, "ff": common.FFS[i % 6],
-                    "p": {"maxlen": 5, "na_prob": 0.1, "waters": [0, 2]}, "mut": rng.choice(["none", "resseq4",
+                    "p": {"maxlen": 5, "na_prob": 0.1, "waters": [0, 2], "variant_prob": 0.35}, "mut": rng.choice(["none", "resseq4",
                                                                                             "icode", "offset", "negnum"]),
                     "opts": [f"--ff={common.FFS[i % 6]}"] + flags})
     return out
@@ -91,6 +91,11 @@ def gen_atom(rng, feature):
         a.res_name = rng.choice(["NALA", "CHIP", "CASH", "NPRO"])
     elif feature == "blank-chain":
         a.chain_id = ""
+    elif feature == "punct-names":
+        # residue / atom names of the shipped force fields and naming schemes that carry +, -, _ (TY-, CY-, HI+, Na+)
+        a.res_name = rng.choice(["TY-", "CY-", "HI+", "BK+", "BK-", "PR+", "PR-", "N-M", "MP_0", "Na+", "Cl-"])
+        if rng.random() < 0.4:
+            a.name = rng.choice(["Na+", "Cl-", "K+", "NH5s", "Li+"])
     return a
 
 
